@@ -72,3 +72,33 @@ Theorem C19_dimensionality_guards :
   (forall d, group_fit_dim_ok d = true <-> d = 2%nat \/ d = 3%nat).
 Proof. exact dims_guards. Qed.
 Print Assumptions C19_dimensionality_guards.
+
+(* values of any Python type (Model/Validate.v: pyval): an enumerated option accepts a value iff it is None or a
+   string and is listed for that option ... *)
+Theorem C19_option_values_of_any_type : forall o v,
+  option_accepts_val o v = true <-> exists x, pyval_as_option v = Some x /\ In x (documented_options o).
+Proof. exact option_accepts_val_iff. Qed.
+Print Assumptions C19_option_values_of_any_type.
+
+(* ... so a falsy value is accepted only when it is None itself: '', False, 0, 0.0, b'', (), [] are unknown values of
+   every option, never a spelling of None *)
+Theorem C19_falsy_values_are_not_None : forall o v, falsy v = true -> option_accepts_val o v = true -> v = PNone.
+Proof. exact falsy_accepted_is_None. Qed.
+Print Assumptions C19_falsy_values_are_not_None.
+
+Theorem C19_falsy_unknown_values_rejected : forall o,
+  option_accepts_val o (PStr "") = false /\ option_accepts_val o (PBool false) = false /\
+  option_accepts_val o (PInt 0) = false /\ option_accepts_val o (PFloat 0) = false /\
+  option_accepts_val o (PBytes "") = false /\ option_accepts_val o (PTuple []) = false /\
+  option_accepts_val o (PList []) = false.
+Proof. exact falsy_unknowns_rejected. Qed.
+Print Assumptions C19_falsy_unknown_values_rejected.
+
+(* option strings are compared exactly: another case or surrounding white space is an unknown value *)
+Theorem C19_option_spelling_is_exact :
+  option_accepts_val OCenter (PStr "Peak") = false /\ option_accepts_val OCenter (PStr " peak") = false /\
+  option_accepts_val OCenter (PStr "peak ") = false /\ option_accepts_val OBurstMethod (PStr "Cycles") = false /\
+  option_accepts_val OFirstExtrema (PStr "None") = false /\ option_accepts_val ODirection (PStr "BOTH") = false /\
+  option_accepts_val OProgress (PStr "Tqdm") = false /\ option_accepts_val OProgress (PStr "tqdm ") = false.
+Proof. exact option_spelling_exact. Qed.
+Print Assumptions C19_option_spelling_is_exact.
